@@ -96,7 +96,7 @@ func c20Smoke(c *Ctx) {
 			r.Violation("C20/smoke", fmt.Sprintf("job %s ran with action time %s, armed minute %s", f.job, f.atime, T), nil)
 		}
 	}
-	gotS := sortedInts(names)
+	gotS := c20sortedInts(names)
 	r.Case("smoke "+gotS, true)
 	r.Sample(map[string]interface{}{"kind": "smoke", "armed_minute": T.UTC().Format(time.RFC3339), "ran": gotS})
 	if gotS != "1,2,6,7" {
